@@ -41,6 +41,27 @@ for k, v in EXTRA.items():
     if k in P:
         P[k]["text"] += v
 
+# round 9 (DESIGN.md 8.6)
+EXTRA9 = {
+ "C02": " A fixed-size table indexed at a computed position is within its length wherever the code tests the position (R02.8). The admission decision table (R01.3) and the lock discipline (R08.7) are obligations here too.",
+ "C04": " The write side of the formatting buffer is isomorphic to bytes.Buffer (R19.1), derived handlers own their field list (R15.4), the blank-line guard (R02.3), one element printer per list (R04.8) and the full traversal of the member list (R04.12) are obligations here.",
+ "C05": " R19.1 (write side), R15.4, R02.3 (blank guard), one element printer per list (R05.8) and the full traversal of the member list (R05.12) are obligations here.",
+ "C06": " Tested search results are split at the absent/found boundary (R06.5), the member loop has its natural exit only (R06.6) and R19.1 (write side) is an obligation here.",
+ "C07": " The loops over the registered context keys and over the member list have their natural exit only (R07.6).",
+ "C08": " Lock discipline (R08.7): each mutex acquired is released on every path and no call made while it is held reaches an acquisition of the same mutex (none acquired on the pinned default build). The fan-out (R13.1) and R09.2 are obligations here too.",
+ "C11": " The blank-line guard (R02.3) is an obligation here too.",
+ "C13": " Lock discipline as R08.7 (R13.6).",
+ "C14": " Same-named parameters handed on to a package function go to their namesakes (R14.7).",
+ "C15": " Every return of the record conversion is dominated by the append of the handler's fields and by the walk; a resolved LogValuer goes through the kind switch again (R15.3). R01.3 is an obligation here too.",
+ "C16": " Each table layout is tokenised: no 12-hour hour without AM/PM, no repeated or missing element (R16.2). R10.2 is an obligation here too.",
+ "C17": " The loop recording the custom tags covers every width of the table (R17.4).",
+ "C18": " Both mapping loops have their natural exit only (R18.8); the flag word's constants keep Lprivacypath and the package never clears it itself (R18.9); no list-edit result is dropped (R18.10); search results are split at -1 (R18.11).",
+ "C20": " The innermost non-zero test around a digit writer tests the value it writes (R20.2).",
+}
+for k, v in EXTRA9.items():
+    if k in P:
+        P[k]["text"] += v
+
 checks, na = [], []
 ids = [json.loads(l)["id"] for l in open(os.path.join(V, "properties.jsonl"))]
 for pid in ids:
